@@ -20,7 +20,8 @@ RULE = ('sources = token soups (not necessarily parseable): sequences of atoms f
         '== REFLEX\'s in kind, spelling (strings: decoded bytes and quote kind), numeric value, line and column; '
         'single chunk == per-line chunks. Non-trivial = the text has two adjacent significant tokens with no '
         'separator, or a numeral/string/comment of a non-basic form; distinct by text.'
-        " A numeral directly followed by a letter is lexed as Lua 5.2's read_numeral does (1then = number, keyword).")
+        " A numeral directly followed by a letter is lexed as Lua 5.2's read_numeral does (1then = number, keyword)."
+        ' Numeral atoms include binary, hexadecimal and decimal fractions of 17-21 digits.')
 ASSUMPTIONS = ['PICO-8/Lua lexical rules are represented by vlib/reflex.py (written from the Lua 5.2 manual + PICO-8 '
                'extension list; no Lua or PICO-8 binary exists in the sandbox to cross-check it)',
                'numeral forms are those the property lists; hex floats with p-exponents and "0x1f." are out of domain',
